@@ -101,21 +101,29 @@ def skein(Nb,No,M,bitlen=None,key=None,prs=None,PK=None,kdf=None,nonce=None,Yl=0
     while len(out)<nout:
         out+=ubi(G,struct.pack('<Q',i),'out'); i+=1
     return out[:nout]
-if __name__=='__main__':
+def selftest():
+    """Threefish / Skein 1.3 specification vectors"""
     h=bytes.fromhex
-    assert tf_enc(h('00'*32),h('00'*16),h('00'*32)).hex()=='84da2a1f8beaee947066ae3e3103f1ad536db1f4a1192495116b9f3ce6133fd8'
+    if not (tf_enc(h('00'*32),h('00'*16),h('00'*32)).hex()=='84da2a1f8beaee947066ae3e3103f1ad536db1f4a1192495116b9f3ce6133fd8'): raise AssertionError("tf_enc(h('00'*32),h('00'*16),h('00'*32)).hex()=='84da")
     k=h('101112131415161718191a1b1c1d1e1f202122232425262728292a2b2c2d2e2f'); t=h('000102030405060708090a0b0c0d0e0f'); m=h('fffefdfcfbfaf9f8f7f6f5f4f3f2f1f0efeeedecebeae9e8e7e6e5e4e3e2e1e0')
     c=tf_enc(k,t,m); assert c.hex()=='e0d091ff0eea8fdfc98192e62ed80ad59d865d08588df476657056b5955e97df'; assert tf_dec(k,t,c)==m
-    assert tf_enc(h('00'*128),h('00'*16),h('00'*128)).hex().startswith('f05c3d0a3d05b304')
-    assert tf_enc(h('00'*64),h('00'*16),h('00'*64)).hex().startswith('b1a2bbc6ef6025bc')
-    assert skein(256,256,h('FF')).hex().upper()=='0B98DCD198EA0E50A7A244C444E25C23DA30C10FC9A1F270A6637F1F34E67ED2'
-    assert skein(256,256,b'').hex().upper()=='C8877087DA56E072870DAA843F176E9453115929094C3A40C463A196C29BF7BA'
-    assert skein(512,512,h('FF')).hex().upper().startswith('71B7BCE6FE645222')
-    assert skein(1024,1024,h('FF')).hex().upper().startswith('E62C05802EA01524')
-    assert skein(256,256,h('00'),bitlen=1).hex().upper()=='52D2B5FFC2966C06BA7BB0CC2BABBC935E99146487FB361A239830D4D688C988'
-    assert skein(256,256,h('00'*33),bitlen=257).hex().upper()=='3EAEA996FAD95B6032654D6CA93AC3450BED8C754CD8000460A2876E34E52FA7'
-    assert skein(256,256,b'',key=h('CB41F1706CDE09651203C2D0EFBADDF8')).hex().upper()=='886E4EFEFC15F06AA298963971D7A25398FFFE5681C84DB39BD00851F64AE29D'
+    if not (tf_enc(h('00'*128),h('00'*16),h('00'*128)).hex().startswith('f05c3d0a3d05b304')): raise AssertionError("tf_enc(h('00'*128),h('00'*16),h('00'*128)).hex().star")
+    if not (tf_enc(h('00'*64),h('00'*16),h('00'*64)).hex().startswith('b1a2bbc6ef6025bc')): raise AssertionError("tf_enc(h('00'*64),h('00'*16),h('00'*64)).hex().starts")
+    if not (skein(256,256,h('FF')).hex().upper()=='0B98DCD198EA0E50A7A244C444E25C23DA30C10FC9A1F270A6637F1F34E67ED2'): raise AssertionError("skein(256,256,h('FF')).hex().upper()=='0B98DCD198EA0E")
+    if not (skein(256,256,b'').hex().upper()=='C8877087DA56E072870DAA843F176E9453115929094C3A40C463A196C29BF7BA'): raise AssertionError("skein(256,256,b'').hex().upper()=='C8877087DA56E07287")
+    if not (skein(512,512,h('FF')).hex().upper().startswith('71B7BCE6FE645222')): raise AssertionError("skein(512,512,h('FF')).hex().upper().startswith('71B7")
+    if not (skein(1024,1024,h('FF')).hex().upper().startswith('E62C05802EA01524')): raise AssertionError("skein(1024,1024,h('FF')).hex().upper().startswith('E6")
+    if not (skein(256,256,h('00'),bitlen=1).hex().upper()=='52D2B5FFC2966C06BA7BB0CC2BABBC935E99146487FB361A239830D4D688C988'): raise AssertionError("skein(256,256,h('00'),bitlen=1).hex().upper()=='52D2B")
+    if not (skein(256,256,h('00'*33),bitlen=257).hex().upper()=='3EAEA996FAD95B6032654D6CA93AC3450BED8C754CD8000460A2876E34E52FA7'): raise AssertionError("skein(256,256,h('00'*33),bitlen=257).hex().upper()=='")
+    if not (skein(256,256,b'',key=h('CB41F1706CDE09651203C2D0EFBADDF8')).hex().upper()=='886E4EFEFC15F06AA298963971D7A25398FFFE5681C84DB39BD00851F64AE29D'): raise AssertionError("skein(256,256,b'',key=h('CB41F1706CDE09651203C2D0EFBA")
     M=h("000102010401060108010A010C010E01100112011401160118011A011C011E01200122012401260128012A012C012E01300132013401360138013A013C013E01400142014401460148014A014C014E01500152015401560158015A015C015E01600162016401660168016A016C016E01700172017401760178017A017C01")
-    assert skein(256,256,M,Yl=2,Yf=2,Ym=2).hex().upper()=='E3CF8FCDD20BFE85D175448007226C20FF22A65DC9DF7588BE305E5CCC3F4941'
-    print('skein512-512("")',skein(512,512,b'').hex()[:32],'recalled bc5b4c50925519c290cc634277ae3d62')
-    print('ref skein ok')
+    if not (skein(256,256,M,Yl=2,Yf=2,Ym=2).hex().upper()=='E3CF8FCDD20BFE85D175448007226C20FF22A65DC9DF7588BE305E5CCC3F4941'): raise AssertionError("skein(256,256,M,Yl=2,Yf=2,Ym=2).hex().upper()=='E3CF8")
+
+    # Skein 1.3 reference implementation (skein_golden_kat / Threefish) vectors with incrementing key, tweak, counting-down plaintext
+    inc=lambda a,n: bytes(range(a,a+n))
+    dec_=lambda n: bytes(range(255,255-n,-1))
+    for n,c in ((64,"e304439626d45a2cb401cad8d636249a6338330eb06d45dd8b36b90e97254779272a0a8d99463504784420ea18c9a725af11dffea10162348927673d5c1caf3d"),
+                (128,"a6654ddbd73cc3b05dd777105aa849bce49372eaaffc5568d254771bab85531c94f780e7ffaae430d5d8af8c70eebbe1760f3b42b737a89cb363490d670314bd8aa41ee63c2e1f45fbd477922f8360b388d6125ea6c7af0ad7056d01796e90c83313f4150a5716b30ed5f569288ae974ce2b4347926fce57de44512177dd7cde")):
+        if tf_enc(inc(0x10,n),inc(0,16),dec_(n)).hex()!=c or tf_dec(inc(0x10,n),inc(0,16),h(c))!=dec_(n): raise AssertionError('threefish-%d vector'%(8*n))
+    if tf_enc(h('00'*64),h('00'*16),h('00'*64)).hex()!="b1a2bbc6ef6025bc40eb3822161f36e375d1bb0aee3186fbd19e47c5d479947b7bc2f8586e35f0cff7e7f03084b0b7b1f1ab3961a580a3e97eb41ea14a6d7bbe": raise AssertionError('tf512 zero')
+    return 16
